@@ -26,6 +26,10 @@ ATTRIB = [
     (RREL, "", ("C11",)), (RREL, "create_rrel_scope_provider", ("C11", "C16")), (TOOLS, "", ("C09", "C11")), (SCOP, "", ("C17",)), (SCOP, "ModelRepository.remove_model", ("C18",)), (SCOP, "remove_models_from_repositories", ("C18",)),
     (MM, "TextXMetaModel.internal_model_from_file", ("C17",)), (MM, "TextXMetaModel._init_obj_attrs", ("C01",)), (MM, "TextXMetaModel.process", ("C33", "C13")),
     ("textx/model_params.py", "", ("C27",)),
+    (LANG, "TextXVisitor.visit_str_match", ("C20", "C21", "C01", "C02")), (LANG, "TextXVisitor.visit_re_match", ("C20", "C01")), (LANG, "TextXVisitor.visit_repeat_modifiers", ("C01", "C21", "C02")),
+    (LANG, "TextXVisitor.visit_obj_ref", ("C32", "C11")), (LANG, "TextXVisitor.visit_assignment", ("C01", "C02", "C32")), (LANG, "TextXVisitor.visit_textx_rule", ("C01", "C22")),
+    (LANG, "TextXVisitor.__init__", ("C21", "C20")), (LANG, "_compile_keyword", ("C20", "C21")),
+    (RREL, "RRELPath", ("C11", "C12")), (RREL, "RRELVisitor", ("C11", "C12")),
 ]
 def props_for(rel, q):
     best = None
@@ -160,7 +164,7 @@ def _load_chains(e, key_mode=False):
         if isinstance(x, ast.Call):
             nm = callee_name(x)
             if key_mode:
-                if isinstance(x.func, ast.Name) and nm in ("id", "str", "tuple", "abspath", "frozenset") and x.args:
+                if isinstance(x.func, ast.Name) and nm in ("id", "tuple", "abspath", "frozenset") and x.args:
                     for a in x.args: w(a)
                 elif isinstance(x.func, ast.Attribute) and nm in ("lower", "casefold", "strip"): w(x.func.value)
                 return
@@ -476,6 +480,105 @@ def r_postponed(root):
                         out.append(Finding(p, p + ".P", rel, q, " ".join(ast.unparse(stmt_of(u)).split())[:100], "the value of %s is used where %s is not known to be false: a reference attribute that is still unresolved (declared later in the text, or postponed) is navigated as if it were final, so the lookup answers 'no match' / a wrong object instead of Postponed" % (ast.unparse(gcall), want), witness="RREL / dotted path through a reference attribute that is written after the reference using it"))
     if inst < 2: raise AnalysisError("postponed-navigation rule: %d dynamic attribute reads found (RRELNavigation.apply.lookup and resolve_model_path expected)" % inst)
     return inst, out
+# ---------------------------------------------------------------------------------------------------------------- .S (sharing)
+def r_intern(root):
+    """The grammar compiler (lang.py) and the RREL compiler (rrel.py) build one object per occurrence: parsing expressions get
+    rule_name / suppress / root / _tx_class set on them afterwards and own a packrat table; RREL nodes are told apart by identity
+    during evaluation; scope providers carry the flags of the reference they were written at.  So these objects are never
+    handed out again from a cache: no `x = D.setdefault(key(x), x)` interning, no dict / class-attribute store of a freshly
+    constructed expression, RREL node or provider that is read back.  (The one shared object is the grammar *parser* in
+    textX_parsers, decided by C16.c.)"""
+    out = []; inst = 0
+    for rel in (LANG, RREL):
+        t = load(root, rel)
+        expr_classes = {a.asname or a.name for n in t.body if isinstance(n, ast.ImportFrom) and (n.module or "").startswith("arpeggio") for a in n.names} | {c.name for c in t.body if isinstance(c, ast.ClassDef) and c.name.startswith("RREL")} | {"RuleCrossRef", "create_rrel_scope_provider"}
+        classes = {c.name for c in ast.walk(t) if isinstance(c, ast.ClassDef)}
+        def is_ctor(fi, e, at, depth=0):
+            if isinstance(e, ast.Call) and callee_name(e) in expr_classes: return callee_name(e)
+            if isinstance(e, ast.Attribute) and e.attr in ("scope_provider",): return "scope provider"
+            if isinstance(e, ast.Name) and depth < 3:
+                nd = fi.node_of(at)
+                for d in (fi.rd.defs_of(nd, e.id) if nd is not None else []):
+                    a = fi.cfg.nodes[d].ast
+                    if fi.cfg.nodes[d].kind == "stmt" and isinstance(a, ast.Assign):
+                        k = is_ctor(fi, a.value, a, depth + 1)
+                        if k: return k
+            return None
+        for fn in [n for n in ast.walk(t) if isinstance(n, ast.FunctionDef)]:
+            fi = None
+            for n in own_nodes(fn):
+                hit = None
+                if isinstance(n, ast.Assign) and isinstance(n.value, ast.Call) and isinstance(n.value.func, ast.Attribute) and n.value.func.attr == "setdefault" and len(n.value.args) == 2:
+                    v = n.value.args[1]; tg = n.targets[0]
+                    if ast.unparse(v) == ast.unparse(tg) or (isinstance(v, ast.Name) and isinstance(tg, ast.Name)):
+                        hit = ("%s" % " ".join(ast.unparse(n).split())[:100], "an object is replaced by the one stored earlier under the key %s (interning)" % ast.unparse(n.value.args[0])[:40])
+                elif isinstance(n, ast.Assign) and len(n.targets) == 1:
+                    tg = n.targets[0]; fi = fi or sem.info(fn)
+                    if isinstance(tg, ast.Subscript) and not isinstance(tg.slice, ast.Slice) and not (isinstance(tg.slice, ast.Constant) and isinstance(tg.slice.value, int)):
+                        k = is_ctor(fi, n.value, n); dtxt = ast.unparse(tg.value)
+                        if k and dtxt != "textX_parsers" and any((isinstance(x, ast.Subscript) and isinstance(x.ctx, ast.Load) and ast.unparse(x.value) == dtxt) or (isinstance(x, ast.Call) and isinstance(x.func, ast.Attribute) and x.func.attr in ("get", "setdefault") and ast.unparse(x.func.value) == dtxt) for x in ast.walk(fn)):
+                            hit = (" ".join(ast.unparse(n).split())[:100], "a freshly built %s is kept in %s and handed out again for the same key" % (k, dtxt))
+                    elif isinstance(tg, ast.Attribute) and isinstance(tg.value, ast.Name) and (tg.value.id in classes or (tg.value.id == "cls" and fn.args.args and fn.args.args[0].arg == "cls" and any("classmethod" in ast.unparse(d_) for d_ in fn.decorator_list))):
+                        k = is_ctor(fi, n.value, n)
+                        if k: hit = (" ".join(ast.unparse(n).split())[:100], "a %s is built once and kept on the class %s for every later use" % (k, tg.value.id))
+                if hit is None: continue
+                inst += 1; q = qualname(n); ps = set(props_for(rel, q)) | {"C19", "C16"}
+                for p in sorted(ps):
+                    ob(p, p + ".S", rel, q, hit[0], False)
+                    out.append(Finding(p, p + ".S", rel, q, hit[0], hit[1] + ": occurrences that must be independent objects (each gets its own rule name / suppress flag / packrat table, is identified by identity during RREL evaluation, or carries its own flags) become one shared object", witness="the same literal / expression used twice in one grammar in different roles, or in two metamodels"))
+    for p in ("C19", "C16"): ob(p, p + ".S", LANG, "TextXVisitor", "no cache hands out parsing expressions, RREL nodes or providers again (%d sharing sites)" % inst, inst == 0)
+    return max(inst, 1), out
+# ---------------------------------------------------------------------------------------------------------------- .V
+RECORDS = [   # (file, class, properties): plain records whose constructor stores each parameter under its own name, unchanged
+    (MODEL, "ObjCrossRef", ("C07", "C08", "C28", "C34", "C09")), (MODEL, "RefRulePosition", ("C34",)),
+    ("textx/exceptions.py", "TextXError", ("C28", "C33", "C23")),
+]
+ERR_SUBCLASSES = ("TextXSemanticError", "TextXSyntaxError")
+def r_records(root):
+    """record classes: `self.<p> = <p>` for every constructor parameter, the value being the parameter itself (not converted,
+    clamped, normalised or defaulted away); exception subclasses hand every location field they accept to the base
+    constructor in the base's order / under the base's names."""
+    out = []; inst = 0
+    for rel, cname, ps in RECORDS:
+        cls = find(load(root, rel), cname); init = next((f for f in cls.body if isinstance(f, ast.FunctionDef) and f.name == "__init__"), None)
+        if init is None: raise AnalysisError("%s.__init__ not found" % cname)
+        fi = sem.info(init)
+        params = [a.arg for a in init.args.args[1:] + init.args.kwonlyargs]
+        for p_ in params:
+            stores = [n for n in own_nodes(init) if isinstance(n, ast.Assign) and any(isinstance(tg, ast.Attribute) and isinstance(tg.value, ast.Name) and tg.value.id == "self" and tg.attr == p_ for tg in n.targets)]
+            inst += 1; bad = None
+            if not stores: bad = ("self.%s" % p_, "the constructor parameter %s is not stored" % p_)
+            for st in stores:
+                v = fi.expand(st.value, at=st)
+                nd = fi.node_of(st)
+                if not (isinstance(v, ast.Name) and v.id == p_): bad = (" ".join(ast.unparse(st).split())[:90], "%s.%s is not the value the constructor was given (%s)" % (cname, p_, ast.unparse(v)[:50]))
+                elif nd is not None and any(fi.cfg.nodes[d].kind != "entry" for d in fi.rd.defs_of(nd, p_)): bad = (" ".join(ast.unparse(st).split())[:90], "the parameter %s is re-bound before it is stored" % p_)
+                elif fi.atoms_at(st): bad = (" ".join(ast.unparse(st).split())[:90], "%s.%s is stored only under a condition" % (cname, p_))
+            for pr in ps: ob(pr, pr + ".V", rel, cname + ".__init__", "self.%s = %s" % (p_, p_), bad is None)
+            if bad:
+                for pr in ps: out.append(Finding(pr, pr + ".V", rel, cname + ".__init__", bad[0], bad[1] + ": every reader of the record (resolver, error reporting, tool support) sees a value that differs from what the producer computed", witness="a value for which the conversion is not the identity (a non-string name, a span longer than the name, a symlinked path)"))
+    # exception subclasses forward the location fields
+    t = load(root, "textx/exceptions.py"); base = find(t, "TextXError"); binit = next(f for f in base.body if isinstance(f, ast.FunctionDef) and f.name == "__init__")
+    border = [a.arg for a in binit.args.args[1:]]
+    for sub in ERR_SUBCLASSES:
+        cls = find(t, sub); init = next((f for f in cls.body if isinstance(f, ast.FunctionDef) and f.name == "__init__"), None)
+        if init is None: continue
+        sup = [c for c in calls(init, own=True) if isinstance(c.func, ast.Attribute) and c.func.attr == "__init__" and "super" in ast.unparse(c.func.value)]
+        if len(sup) != 1: raise AnalysisError("%s.__init__: base constructor call not found" % sub)
+        c = sup[0]; given = {}
+        for k, a in enumerate(c.args):
+            if k < len(border): given[border[k]] = a
+        for kw in c.keywords:
+            if kw.arg: given[kw.arg] = kw.value
+        own = [a.arg for a in init.args.args[1:] + init.args.kwonlyargs]
+        for f_ in border:
+            if f_ not in own: continue
+            inst += 1
+            okf = f_ in given and isinstance(given[f_], ast.Name) and given[f_].id == f_
+            for pr in ("C28", "C33", "C23"): ob(pr, pr + ".V", "textx/exceptions.py", sub + ".__init__", "base constructor receives %s=%s" % (f_, f_), okf)
+            if not okf:
+                for pr in ("C28", "C33", "C23"): out.append(Finding(pr, pr + ".V", "textx/exceptions.py", sub + ".__init__", " ".join(ast.unparse(c).split())[:100], "%s accepts %s but hands %s to the base constructor for it: the field is lost or lands in another field of the error" % (sub, f_, ast.unparse(given[f_]) if f_ in given else "nothing"), witness="raise %s(msg, line=1, col=2, nchar=3, filename='f')" % sub))
+    return inst, out
 def families():
     """clause family letter -> properties it can attribute findings to"""
     allp = set()
@@ -484,4 +587,4 @@ def families():
     for _f, _pre, ps in MEMO_ATTRIB: mp |= set(ps)
     op = set()
     for ps in OPT_PROPS.values(): op |= set(ps)
-    return {"T": allp, "M": mp, "O": op, "S": {"C19", "C16"}, "P": {"C09", "C11"}}
+    return {"T": allp, "M": mp, "O": op, "S": {"C19", "C16", "C20", "C21", "C01", "C02", "C32", "C11", "C12", "C22"}, "P": {"C09", "C11"}, "V": {"C07", "C08", "C09", "C28", "C34", "C33", "C23"}}
